@@ -177,7 +177,8 @@ type process struct {
 	crashed bool
 	nlive   int32
 	fsOps   int32
-	Out     any
+	stdout  []byte
+	stderr  []byte
 }
 
 // Sim is one simulation. A Sim object is reused between runs of one OS
@@ -325,6 +326,7 @@ func (s *Sim) reset(cfg Config) {
 	s.maxPar = 0
 	s.uncanonical = 0
 	s.Ext = nil
+	resetRegistry()
 
 	// change points
 	s.nChange = 0
